@@ -353,7 +353,7 @@ partial def runWire (env : Env) (cfg : Config) (specAcc : List String) : List St
         let spec := ss.map (fun s => match Spec.cmdOf env cfg.keyblobs s with
           | some c =>
             let bad := !(Spec.isPlainBlobLoad env s) && !(Spec.isProgBlobLeadingZeros env s) &&
-              !(Spec.isCallOrReset s) && !(Spec.isSwappedEncrypt env cfg.keyblobs s) &&
+
               (match elabStmt env cfg.keyblobs s with | .ok c' => c' != c | .error _ => true)
             (if bad then "!" else "") ++ cmdStr c
           | none => "?")
@@ -416,7 +416,7 @@ def step : List String → String
         let cmds := match cmdsOfConfig env' cfg with
           | .ok secs => "|".intercalate (secs.map (fun cs => ";".intercalate (cs.map cmdStr)))
           | .error _ => "E"
-        let uids := ",".intercalate ((sectionUids cfg).map toString) ++ ";" ++
+        let uids := (match sectionUids cfg with | .ok l => ",".intercalate (l.map toString) | .error _ => "E") ++ ";" ++
           (match Spec.sectionUids cfg with | some l => ",".intercalate (l.map toString) | none => "?")
         configStr env' cfg ++ " # " ++ cmds ++ " # " ++ "|".intercalate spec ++ " # " ++ uids
   | _ => "bad-op"
